@@ -482,7 +482,8 @@ def shapes(tier):
     for n in ((0, 1, 3, 4, 5, 8, 9) if th else (0, 3, 5)):
         jobs.append(('b2l', dict(n=n)))
     for kind in ('RSA', 'DSA', 'ECC'):
-        for n in range(0, (6 if th else 4) + 1):
+        # (n >= 5: the PEM / OpenSSH text detection of import_key needs concrete bytes at that length: inconclusive, outside)
+        for n in range(0, 4 + 1):
             jobs.append(('import_key', dict(kind=kind, n=n)))
         # DER SEQUENCE header fixed, body symbolic
         for n in ((1, 2, 3, 4, 5) if th else (1, 2, 3)):
@@ -490,6 +491,10 @@ def shapes(tier):
     for n in range(0, (6 if th else 4) + 1):
         jobs.append(('pkcs8_unwrap', dict(n=n)))
         jobs.append(('pkcs8_unwrap', dict(n=n, passphrase='x')))
+    # SEQUENCE headers fixed, bodies symbolic (reaches the encrypted-container decoders with short inputs)
+    for prefix, n in (('3004', 4), ('3005', 5), ('30043000', 2), ('30063002', 4)):
+        jobs.append(('pkcs8_unwrap', dict(n=n, prefix=prefix, passphrase='x')))
+        jobs.append(('pkcs8_unwrap', dict(n=n, prefix=prefix)))
     # grammar-based ECC files
     for curve, n in (('P-256', 32), ('P-521', 66)) if not th else (('P-256', 32), ('P-384', 48), ('P-521', 66)):
         plens = (0, 1, 2, n, n + 1, 2 * n, 2 * n + 1, 2 * n + 2)
@@ -521,14 +526,15 @@ def shapes(tier):
         for o in offs:
             if o + 1 <= len(TEMPLATES[name]):
                 jobs.append(('mutate', dict(template=name, off=o, w=1)))
-            if th and o + 2 <= len(TEMPLATES[name]):
+            if th and o + 2 <= len(TEMPLATES[name]) and o >= 1 and TEMPLATES[name][o - 1] != 0x82:
+                # (a 2-byte window over both octets of a long-form length exceeds the case-split cap: skipped)
                 jobs.append(('mutate', dict(template=name, off=o, w=2)))
     return jobs
 
 
 BOUNDS = dict(der_decoders="every Der* class, strict and lenient, every byte string of length 0..5 (quick) / 0..7 (thorough)",
               integers="|v| < 2^40", padding="block sizes 1..16, data <= 24 bytes, all three styles",
-              import_key="RSA/DSA/ECC.import_key on every byte string of length <= 4 (quick) / 6 (thorough), and 0x30-prefixed bodies",
+              import_key="RSA/DSA/ECC.import_key on every byte string of length <= 4, and 0x30-prefixed bodies; PKCS8.unwrap on every byte string <= 4 (6) and SEQUENCE-prefixed bodies",
               outside=["inputs longer than the stated lengths", "PEM/OpenSSH text layer on arbitrary text (regex/base64 on symbolic text)",
                        "OID arcs (string formatting of symbolic ints)", "RFC1751"])
 ASSUMPTIONS = ["exceptions allowed: ValueError (RSA.import_key also IndexError/TypeError), per the property text"]
